@@ -6,7 +6,7 @@ from __future__ import annotations
 
 from fractions import Fraction
 
-from . import kit, oracle
+from . import core, kit, oracle
 
 SHIPPED_REL = Fraction(1, 100000)
 
@@ -88,7 +88,7 @@ class ConvertMonitor:
             return
         import math
 
-        decades = orc.dynamic_range(src) + orc.dynamic_range(other_unit) + (abs(math.log10(abs(float(m)))) if m else 0)
+        decades = orc.dynamic_range(src) + orc.dynamic_range(other_unit) + (abs(math.log10(abs(core.sf(m)))) if m else 0)
         if decades > 280:
             # some partial product of the plan may leave the float range: not a unit question
             ctx.count("convert/skipped_intermediate_may_leave_float_range")
@@ -103,7 +103,7 @@ class ConvertMonitor:
         if big:
             mid = (elo + ehi) / 2
             if mid:
-                err = abs(float((oracle.F(got) - mid) / mid))
+                err = abs(core.sf((oracle.F(got) - mid) / mid))
                 ctx.maxi("rel_error_vs_oracle_mid", err)
         self.last = ok
         if not ok:
@@ -115,7 +115,7 @@ class ConvertMonitor:
                 plan_s = f"<{type(e).__name__}>"
             ctx.violation(
                 f"{self.key_prefix}:dimensionless-factor-dropped-or-inverted" if cls == "DIMLESS" else f"{self.key_prefix}:wrong-magnitude:{cls}",
-                f"{m!r} {src} -> {other_unit}: got {got!r}, oracle [{float(elo)!r}, {float(ehi)!r}] (rel tol {float(rel):g})",
+                f"{m!r} {src} -> {other_unit}: got {got!r}, oracle [{core.sf(elo)!r}, {core.sf(ehi)!r}] (rel tol {core.sf(rel):g})",
                 {"src_mag": repr(m), "src": repr(src), "dst": repr(other_unit), "got": repr(got),
-                 "oracle_lo": float(elo), "oracle_hi": float(ehi), "plan": plan_s},
+                 "oracle_lo": core.sf(elo), "oracle_hi": core.sf(ehi), "plan": plan_s},
             )
